@@ -214,7 +214,7 @@ PROPS["C13"] = dict(
     kani=[dict(filter_q="c13_q_", filter_t=["c13_q_", "c13_t_"], jobs=14, timeout_q=300, timeout_t=1200)],
     functions=["Integer::{is_even,is_odd,inc,dec,is_multiple_of,gcd,lcm,gcd_lcm} for BigInt/BigUint", "Stein gcd (BigUint::gcd)"],
     bounds_quick="parity, inc/dec (through zero and across digit boundaries) on 0..2-digit values of both signs; gcd zero rules; BigInt gcd = gcd of magnitudes (unsigned gcd under contract), non-negative; "
-                 "only-zero-is-a-multiple-of-zero; lcm(0,0), gcd_lcm(0,0); Stein gcd with the real code on all pairs of 3-bit values (4/5-bit thorough)",
+                 "only-zero-is-a-multiple-of-zero; lcm(0,0), gcd_lcm(0,0); Stein gcd with the real code on pairs of 3..5-bit values is a thorough-tier ATTEMPT only (did not finish in 15 min: each loop round is a by-value shift, a comparison and a subtraction on heap values)",
     outside="gcd/lcm/Bezout VALUES on full-width operands; extended_gcd (num-integer's generic default over BigInt division) and next/prev_multiple_of are not decided here (their division layer is C03's claim)",
     trusted=STUBS_ADDSUB + ["contract stub (BigInt gcd harnesses): <BigUint as Integer>::gcd -> zero rules + arbitrary canonical g <= both operands", "fixed-word shift stand-ins (gcd harness)", "stub: Vec::shrink_to_fit -> no-op"],
 )
